@@ -16,6 +16,8 @@ import (
 	"io"
 	"log"
 	"os"
+	"runtime"
+	"runtime/debug"
 	"sort"
 	"strings"
 	"sync"
@@ -73,10 +75,20 @@ func run(r *ev.Run) {
 
 	// family "attach-race": the constructor races run first, one after the other, while the
 	// process is quiet; the rest of each round (uploads, bounded progress, verdict) runs below
-	for _, sc := range scs {
-		if sc.Attach != "" {
-			r.Guard("attach-race constructor", sc, func() { sc.pre = prestart(sc) })
+	// (two processors and no collector during that phase: a `go` statement in a constructor then
+	// finds no idle processor to wake up, which would cost it tens of microseconds between the
+	// rendez-vous and its hub look-up)
+	{
+		gc := debug.SetGCPercent(-1)
+		runtime.GC() // ends a collection that generating the scenarios may have started: its workers would take the two processors
+		procs := runtime.GOMAXPROCS(2)
+		for _, sc := range scs {
+			if sc.Attach != "" {
+				r.Guard("attach-race constructor", sc, func() { sc.pre = prestart(sc) })
+			}
 		}
+		runtime.GOMAXPROCS(procs)
+		debug.SetGCPercent(gc)
 	}
 
 	// family "server": one child process per configuration, alongside the scenarios
@@ -100,8 +112,15 @@ func run(r *ev.Run) {
 	outs := make([]*outcome, len(scs))
 	var wg sync.WaitGroup
 	sem := make(chan struct{}, par)
+	// (the rounds of family "attach-race" are light — three small uploads, then waiting for the
+	// loop's idle signal — and get a pool of their own beside the other scenarios)
+	asem := make(chan struct{}, 64)
 	for i, sc := range scs {
 		wg.Add(1)
+		sem := sem
+		if sc.Attach != "" {
+			sem = asem
+		}
 		sem <- struct{}{}
 		go func(i int, sc *scenario) {
 			defer wg.Done()
@@ -246,9 +265,6 @@ func run(r *ev.Run) {
 		}
 		if i%17 == 0 || len(o.Findings) > 0 {
 			r.Sample(map[string]any{"scenario": sc, "outcome": summary(o)})
-		}
-		if os.Getenv("C19_ATTACH_DEBUG") != "" && sc.Attach != "" {
-			fmt.Printf("ATTACHDEBUG %s late%d=%d findings=%d obs=%+v\n", sc.ID, sc.AttachLateParty, sc.AttachLateNs, len(o.Findings), o.Attach)
 		}
 		seen := map[string]bool{}
 		for _, f := range o.Findings {
